@@ -454,13 +454,20 @@ def class_style_adjust(S):
     """in a class-defined Sim the class-body key IS the attribute's name; unnamed ones use '_' (at most one) or get their key as name"""
     used = False
     for j, a in enumerate(S["attrs"]):
-        if a["k"] in ("save", "include", "lib", "literal"):
-            continue
         if not a["hasname"]:
             if not used:
-                used = True
-            else:
+                used = True          # this one sits under the key "_" (whatever its kind: a Save or Include takes the key just the same)
+            elif a["k"] not in ("save", "include", "lib", "literal"):
                 a["name"], a["hasname"] = f"anon{j}", True
+    # an inner analysis that IS one of the top-level objects carries that object's (key-given) name
+    def fix(lst):
+        for x in lst:
+            j = x.get("same_object_as")
+            if j is not None and S["attrs"][j]["k"] not in ("save", "include", "lib", "literal"):
+                x["name"], x["hasname"] = S["attrs"][j]["name"], S["attrs"][j]["hasname"]
+            fix(x.get("inner", []))
+    for a in S["attrs"]:
+        fix(a.get("inner", []))
     return S
 
 
